@@ -54,7 +54,7 @@ C = {
    "Generated certificates (key types, signature algorithms, extension kinds) parsed by both parsers and compared field by field; NULL-stripped re-encodings; byte mutations; PEM bundles; serial-extension values of length 0..10 against a reference ModHex; re-encodings with issuer/subject unique identifiers; boundary serial numbers.",
    "crypto/x509 is the reference for well-formed certificates."),
  "C17": ("fault_enumeration", "§4 C17", "success/failure vector enumeration over real TLS gRPC CA servers + Backoff bound monitor",
-   "Every endpoint list of length 0..4 x every success/failure vector x failure kind against recording gRPC servers on loopback aliases; contacted endpoints must form a prefix ending at the first success, the request must arrive unmodified; Backoff sampled over attempts and configurations; retries > 1 with real backoff delays, duplicate endpoints, finished contexts, default retry settings, replies of any size or without certificates, a second signer from the same configuration value; negative per-try time-outs; bracketed IPv6 endpoints; requests using every member of the message; earlier results re-compared after later calls; replies without final newline, large retry settings, delays computed concurrently.",
+   "Every endpoint list of length 0..4 x every success/failure vector x failure kind against recording gRPC servers on loopback aliases; contacted endpoints must form a prefix ending at the first success, the request must arrive unmodified; Backoff sampled over attempts and configurations; retries > 1 with real backoff delays, duplicate endpoints, finished contexts, default retry settings, replies of any size or without certificates, a second signer from the same configuration value; negative per-try time-outs; bracketed IPv6 endpoints; requests using every member of the message; earlier results re-compared after later calls; replies without final newline, large retry settings, delays computed concurrently, once more in a race-instrumented helper (cmd/c17race) whose detector reports are read.",
    "Loopback TLS servers stand in for crypki; hang case bounded by PerTryTimeout."),
  "C18": ("exploration", "§4 C18", "handshake recording at harness TLS servers with genuine/impostor identities",
    "Server identities (configured CA, foreign CA, self-signed, expired, not yet valid, wrong name, system-pool-only), protocol ranges and client-certificate policies at every position of endpoint lists; an RPC handled by a non-genuine server or below TLS 1.2 is a violation; bundles with non-certificate blocks, a client certificate chain from a CA of its own, a client certificate that lapses while the signer lives; dial options handed out and overwritten by the caller; RSA-key servers, a successor CA staged before it is valid, configurations built concurrently; client certificate files damaged after construction; a server certificate lapsing between two calls; stale extra certificates in the server's message.",
